@@ -412,7 +412,15 @@ func (s *Service) Route(ctx context.Context, msg interface{}) ([]string, bool, e
 func (s *Service) toService(ctx context.Context, name string, msg interface{}) bool {
 	switch name {
 	case "ws":
-		s.wsClientC <- msg
+		// Don't wait for the WebSocket client: there might be
+		// none (then the channel is nil, and a send would block
+		// forever), and the message might be addressed to
+		// machines, too, which are only looked at after this.
+		select {
+		case s.wsClientC <- msg:
+		default:
+			s.err(fmt.Errorf("no WebSocket client takes %s", JS(msg)))
+		}
 	case "http":
 		if err := s.toHTTP(ctx, msg); err != nil {
 			// Not a "Route" problem.
